@@ -220,7 +220,11 @@ class World:
         self.islocal_calls = []
 
         def islocal(ip, family):
+            # the scripted answer is about the DESTINATION; asking about the peer's source address
+            # (FakeListener.src) gets the opposite answer, so a guard that tests the wrong address shows
             self.islocal_calls.append((ip, family))
+            if ip == "192.0.2.9":
+                return not self.islocal_answer
             return self.islocal_answer
         client.islocal = islocal
         client.log = lambda s: None
